@@ -959,35 +959,39 @@ class PDFDocument:
         if "Outlines" not in self.catalog:
             raise PDFNoOutlines
 
-        def search(entry: object, level: int) -> Iterator[PDFDocument.OutlineType]:
-            entry = dict_value(entry)
-            if "Title" in entry:
-                # Dest and A are both optional (PDF 32000-1 Table 153)
-                title = decode_text(str_value(entry["Title"]))
-                dest = entry.get("Dest")
-                action = entry.get("A")
-                se = entry.get("SE")
-                yield (level, title, dest, action, se)
-            if "First" in entry and "Last" in entry:
-                yield from siblings(entry["First"], level + 1)
-
         visited: Set[int] = set()
 
-        def siblings(entry: object, level: int) -> Iterator[PDFDocument.OutlineType]:
-            # Walk the Next chain iteratively: recursing once per sibling
-            # overflows the stack on long flat outlines.
-            while entry is not None:
+        def walk(entry: object, level: int) -> Iterator[PDFDocument.OutlineType]:
+            # Both the Next chain and the First nesting are walked with an
+            # explicit stack of the chains still to continue: recursing once
+            # per sibling or per level overflows the stack on long or deep
+            # outlines.
+            stack: List[Tuple[object, int]] = [(entry, level)]
+            while stack:
+                (entry, level) = stack.pop()
+                if entry is None:
+                    continue
                 # An item reached again through a cyclic Next or First chain
-                # ends the walk instead of being listed for ever.
+                # ends the walk of that chain instead of being listed for ever.
                 objid = getattr(entry, "objid", None)
                 if objid is not None:
                     if objid in visited:
-                        break
+                        continue
                     visited.add(objid)
-                yield from search(entry, level)
-                entry = dict_value(entry).get("Next")
+                item = dict_value(entry)
+                if "Title" in item:
+                    # Dest and A are both optional (PDF 32000-1 Table 153)
+                    title = decode_text(str_value(item["Title"]))
+                    dest = item.get("Dest")
+                    action = item.get("A")
+                    se = item.get("SE")
+                    yield (level, title, dest, action, se)
+                # the children come first, then the rest of this chain
+                stack.append((item.get("Next"), level))
+                if "First" in item and "Last" in item:
+                    stack.append((item["First"], level + 1))
 
-        return siblings(self.catalog["Outlines"], 0)
+        return walk(self.catalog["Outlines"], 0)
 
     def get_page_labels(self) -> Iterator[str]:
         """Generate page label strings for the PDF document.
